@@ -37,12 +37,13 @@ def _module():
 
 
 def _tree(depth):
-    names = [n for n in T.CMAKE_NAMES]
+    # a backslash is an ordinary character in POSIX file names
+    names = ["util\\str.cmake"] + [n for n in T.CMAKE_NAMES]
     files = st.dictionaries(st.sampled_from(names), _module(), max_size=3)
     if depth <= 0:
         return st.fixed_dictionaries({"files": files, "dirs": st.just({})})
     return st.fixed_dictionaries({"files": files,
-                                  "dirs": st.dictionaries(st.sampled_from(T.DIR_NAMES), st.deferred(lambda: _tree(depth - 1)),
+                                  "dirs": st.dictionaries(st.sampled_from(["win\\paths", "util"] + T.DIR_NAMES), st.deferred(lambda: _tree(depth - 1)),
                                                           max_size=2)})
 
 
@@ -51,7 +52,7 @@ def strategy(tier):
     return st.fixed_dictionaries({
         "tree": _tree(depth),
         "mode": st.sampled_from(["dir-abs", "dir-abs", "dir-rel", "dir-dot", "dir-dotslash", "file-abs", "file-rel", "dir-after-other",
-                                  "file-after-dir"]),
+                                  "file-after-dir", "dir-link"]),
         "prefix": st.sampled_from([None, None, ["-p", "pfx"], ["-p", "My.Proj"], ["cfg", "cfgpfx"], ["-p", "p q"], ["-p", "préfix"]]),
         "sep": st.sampled_from(SEPS),
         "ext_titles": st.booleans(),
@@ -204,7 +205,12 @@ def evaluate(case):
                 arg = os.path.basename(fabs)
             argv = [arg, "-o", out, "-s", cfg]
         else:
-            if case["mode"] in ("dir-abs", "dir-after-other"):
+            if case["mode"] == "dir-link":
+                # the directory is given through a symbolic link with a name of its own: the name GIVEN is the default prefix
+                os.symlink(inname, sb.path("linked.docs"))
+                arg = sb.path("linked.docs")
+                inname = "linked.docs"
+            elif case["mode"] in ("dir-abs", "dir-after-other"):
                 arg = inp
             elif case["mode"] == "dir-rel":
                 cwd, arg = sb.root, inname
